@@ -4,6 +4,7 @@ package main
 // producing obligations. See DESIGN.md section 3.
 
 import (
+	"os"
 	"go/ast"
 	"fmt"
 	"go/constant"
@@ -134,6 +135,7 @@ type Frame struct {
 	entry   *State // state at function entry (for old())
 	params  []Val
 	rets    []retInfo
+	parent  *Frame // the frame this one was inlined from
 }
 
 type retInfo struct {
@@ -165,6 +167,7 @@ type Exec struct {
 	measures map[int]string
 	replayInputs []*inNode
 	callOrd  map[ssa.Instruction]callSite
+	spliced  map[*ssa.Function]bool // uncontracted helpers whose call sites are numbered with the function's own
 	monAcq     map[string]*State // monitor fields: the state right after the lock was taken
 	loopFrames map[int]map[string]loopFrame
 	aliasOf  map[string][]aliasEdge // ownership tracking: a phi's array is one of its incoming arrays
@@ -801,12 +804,57 @@ func (e *Exec) computeOrdinals() {
 	e.callOrd = map[ssa.Instruction]callSite{}
 	cnt := map[string]int{}
 	ccnt := map[string]int{}
+	e.spliced = map[*ssa.Function]bool{}
+	// helpers without a contract that the function calls exactly once and that the engine
+	// executes in line: their call sites are numbered as if their body stood at the call, so
+	// that `call F#k:` sections survive extracting statements into such a helper
+	helperCalls := map[*ssa.Function]int{}
+	for _, b := range e.fn.Blocks {
+		for _, in := range b.Instrs {
+			if c, ok := in.(*ssa.Call); ok {
+				if g := c.Call.StaticCallee(); g != nil {
+					helperCalls[g]++
+				}
+			}
+		}
+	}
+	isHelper := func(in ssa.Instruction) *ssa.Function {
+		c, ok := in.(*ssa.Call)
+		if !ok || os.Getenv("GOVC_NO_SPLICE") != "" {
+			return nil
+		}
+		g := c.Call.StaticCallee()
+		if g == nil || g == e.fn || helperCalls[g] != 1 || !inModule(g) || g.Parent() != nil || e.P.contractFor(g) != nil || !e.canInline(g, 0) {
+			return nil
+		}
+		return g
+	}
 	for _, b := range e.fn.Blocks {
 		for _, in := range b.Instrs {
 			if ci, ok := in.(ssa.CallInstruction); ok {
 				n := callShortName(ci.Common())
 				ccnt[n]++
 				e.callOrd[in] = callSite{n, ccnt[n]}
+				if g := isHelper(in); g != nil {
+					e.spliced[g] = true
+					for _, gb := range g.Blocks {
+						for _, gin := range gb.Instrs {
+							if gci, ok := gin.(ssa.CallInstruction); ok {
+								gn := callShortName(gci.Common())
+								ccnt[gn]++
+								e.callOrd[gin] = callSite{gn, ccnt[gn]}
+							}
+							if _, ok := gin.(*ssa.Select); ok {
+								ccnt["select"]++
+								e.callOrd[gin] = callSite{"select", ccnt["select"]}
+							}
+							if _, ok := gin.(*ssa.Send); ok {
+								ccnt["send"]++
+								e.callOrd[gin] = callSite{"send", ccnt["send"]}
+							}
+						}
+					}
+				}
 			}
 			if _, ok := in.(*ssa.Select); ok {
 				// selects are addressable like calls: `call select#k:`
@@ -1243,4 +1291,10 @@ func (e *Exec) nameVal(prefix string, v Val, t types.Type) Val {
 		r.F = append(r.F, e.nameVal(fmt.Sprintf("%s_%d", prefix, i), f, f.T))
 	}
 	return r
+}
+
+// siteFrame: call sites of this frame are addressable by the contract's `call F#k:` sections
+// (the function itself, or a helper spliced into its numbering and executed in line from it)
+func (e *Exec) siteFrame(fr *Frame) bool {
+	return fr.top || (fr.depth == 1 && e.spliced[fr.fn])
 }
